@@ -467,15 +467,17 @@ def check_cfg(ctx, fx, cfg):
     # R01.11 the queue the builder created is the one the environment runs on: terminals hand their Channel over unmodified
     if cfg != "bare":
         n_t = 0
-        for g, bi_, t_ in graph.all_calls(fx, lambda x: (x.get("callee") or "").endswith("Environment::<A, R>::from_channel")):
+        _prim, _ctors = loops.env_ctors(fx)
+        ctx.require(_prim is not None, "R01.11", "environment-constructor@" + cfg, "the function that builds the Environment from a Channel was not found")
+        for g, bi_, t_ in graph.all_calls(fx, lambda x: x.get("callee") in _ctors):
             gb = ctx.body(fx, g)
-            rs = roots(gb, t_["args"][0])
+            rs = roots(gb, t_["args"][_ctors[t_["callee"]]])
             n_t += 1
             okc = bool(rs) and all(r.kind == "arg" or r.kind.startswith("call:channel::Channel::<A>::") for r in rs)
             ctx.require(okc, "R01.11", "channel-handed-over:%s@%s" % (g["def"], cfg), "the channel the loop runs on is not the one created for this actor (roots %s)" % sorted(map(str, rs)), fn=g["def"], site=t_["l"])
         # every caller is judged; the floor only guards against the constructor having been renamed away (the count itself
         # changes when terminals share a helper): the environment's own two constructors + at least one builder path
-        ctx.floor("R01.11", "callers of Environment::from_channel (%s)" % cfg, n_t, 3)
+        ctx.floor("R01.11", "callers of the environment constructor (%s)" % cfg, n_t, 3)
     # R01.12 a submission API answers Ok only for a message it has itself put into the mailbox (a call / ping that rides on
     # somebody else's submission is answered from that submission's queue position: program order of the caller is lost)
     from props.c04 import check_submit_on_ok
